@@ -20,15 +20,17 @@ STRATA = [
     ("unsat-constructed", 150, 2500),
     ("planted", 40, 600),
     ("mid", 400, 6000),
+    ("aliased", 1200, 15000),
     ("cp-cnf", 400, 6000),
     ("default-mode", 12, 120),
     ("reduce", 0, 3),
     ("reduce-planted", 6, 64),
+    ("long-run", 4, 32),
     ("suite", 0, 1),
 ]
 REQUIRED_EVENTS = {"any": ["l2.reduce_db-above-threshold", "l2.learned-vs-known-model", "c02.verdict-checked", "c02.budget-counters-read", "l2.analyze", "sat.restarts",
                            "sat.default-config-run-with-restart"]}
-BATCH = {"reduce": 1, "reduce-planted": 1, "default-mode": 1, "planted": 5, "budget": 5}
+BATCH = {"reduce": 1, "reduce-planted": 1, "long-run": 1, "default-mode": 1, "planted": 5, "budget": 5}
 
 setup = sc.setup
 gen = sc.gen
